@@ -19,6 +19,35 @@ theorem event_name_or_object (resolve : Nat → TZ) (now : Int) (fn : SunFn) (ob
     sunEventPublic resolve now fn obs date dep (.name n)
       = sunEventPublic resolve now fn obs date dep (.obj (resolve n)) := rfl
 
+theorem period_name_or_object (resolve : Nat → TZ) (now : Int) (fn : PeriodFn) (obs : Obs α)
+    (date : Option Int) (dir : Dir) (n : Nat) :
+    periodPublic resolve now fn obs date dir (.name n)
+      = periodPublic resolve now fn obs date dir (.obj (resolve n)) := rfl
+
+theorem sunBundle_name_or_object (resolve : Nat → TZ) (now : Int) (obs : Obs α)
+    (date : Option Int) (dep : DepSpec α) (n : Nat) :
+    sunBundlePublic resolve now obs date dep (.name n)
+      = sunBundlePublic resolve now obs date dep (.obj (resolve n)) := rfl
+
+/-- the date omitted is today's date in the requested zone — for the periods and the bundle too -/
+theorem period_omitted_is_today (resolve : Nat → TZ) (now : Int) (fn : PeriodFn) (obs : Obs α)
+    (dir : Dir) (tz : TzArg) :
+    periodPublic resolve now fn obs none dir tz
+      = periodPublic resolve now fn obs (some (todayIn now (normTz resolve tz))) dir tz := rfl
+
+theorem sunBundle_omitted_is_today (resolve : Nat → TZ) (now : Int) (obs : Obs α)
+    (dep : DepSpec α) (tz : TzArg) :
+    sunBundlePublic resolve now obs none dep tz
+      = sunBundlePublic resolve now obs (some (todayIn now (normTz resolve tz))) dep tz := rfl
+
+/-- a named depression equals its number of degrees in the bundle -/
+theorem sunBundle_named_depression (resolve : Nat → TZ) (now : Int) (obs : Obs α)
+    (date : Option Int) (tz : TzArg) :
+    sunBundlePublic resolve now obs date .civil tz = sunBundlePublic resolve now obs date (.num 6.0) tz
+    ∧ sunBundlePublic resolve now obs date .nautical tz = sunBundlePublic resolve now obs date (.num 12.0) tz
+    ∧ sunBundlePublic resolve now obs date .astronomical tz
+        = sunBundlePublic resolve now obs date (.num 18.0) tz := ⟨rfl, rfl, rfl⟩
+
 theorem tae_name_or_object (resolve : Nat → TZ) (now : Int) (obs : Obs α) (e : α)
     (date : Option Int) (dir : Dir) (n : Nat) (r : Bool) :
     timeAtElevationPublic resolve now obs e date dir (.name n) r
